@@ -273,7 +273,8 @@ class RearrangeByColumn(ShuffleBase):
 
         # Normalize partitioning_index
 
-        if isinstance(partitioning_index, str):
+        if np.isscalar(partitioning_index):
+            # a single label, which need not be a string
             partitioning_index = [partitioning_index]
         if index_shuffle:
             pass
